@@ -17,8 +17,10 @@
 package staking
 
 import (
+	"bytes"
 	"io"
 	"math/big"
+	"sort"
 	"sync/atomic"
 
 	"github.com/youchainhq/go-youchain/common"
@@ -119,6 +121,8 @@ func (e EvidenceDoubleSign) EncodeRLP(w io.Writer) error {
 			Sign []byte
 		}{Hash: h.Bytes(), Sign: s})
 	}
+	// map iteration order is random: sort by hash so that equal evidences have one encoding
+	sort.Slice(data.Signs, func(i, j int) bool { return bytes.Compare(data.Signs[i].Hash, data.Signs[j].Hash) < 0 })
 	return rlp.Encode(w, []interface{}{data.Round, data.RoundIndex, data.Signs})
 }
 
